@@ -573,6 +573,7 @@ class Unit:
         self.not_covered = []
         self.prelude_files = []
         self.prelude_ranges = []
+        self.raw_ranges = []
 
     # ---- emit helpers ----
     def _emit(self, text):
@@ -594,6 +595,7 @@ class Unit:
         """spec functions, lemmas, shim types particular to this unit.  Every `proof fn` in it
         is one obligation."""
         a, b = self._emit(text.strip('\n'))
+        self.raw_ranges.append((a, b, bool(re.search(r'//\s*A-[\w-]+\s*:', text))))
         # name the proof fns
         cur = None
         for ln in range(a, b + 1):
